@@ -156,10 +156,13 @@ class Callee:
 
     @property
     def short(self):
-        """`Type::name` / `Trait::name` / `name` (for matching sets of callees)."""
+        """`Type::name` / `Trait::name` / `name` (for matching sets of callees).  Methods of crate-local
+        traits called on a concrete type are named by that type (`Bfs::iter`), on a type parameter by the trait."""
         if self.indirect:
             return '<indirect>'
         if self.trait:
+            if self.f.get('local') and self.self_base and not re.fullmatch(r'[A-Z][A-Za-z]?', self.self_base) and self.self_base != 'Self':
+                return '%s::%s' % (self.self_base, self.name)
             return '%s::%s' % (self.trait, self.name)
         if self.self_base:
             return '%s::%s' % (self.self_base, self.name)
